@@ -1025,7 +1025,12 @@ class FuncCeiling(ValueFunc):
     def execute(self, args, environment, pos):
         if args.isNull("x"):
             return NULL
-        return ValueDecimal(math.ceil(args.getNumerical("x").value))
+        try:
+            return ValueDecimal(math.ceil(args.getNumerical("x").value))
+        except (OverflowError, ValueError):
+            raise CklRuntimeError(
+                ValueString("ERROR"), "Cannot round a non-finite number", pos
+            )
 
 
 class FuncChr(ValueFunc):
@@ -1860,7 +1865,12 @@ class FuncFloor(ValueFunc):
     def execute(self, args, environment, pos):
         if args.isNull("x"):
             return NULL
-        return ValueDecimal(math.floor(args.getNumerical("x").value))
+        try:
+            return ValueDecimal(math.floor(args.getNumerical("x").value))
+        except (OverflowError, ValueError):
+            raise CklRuntimeError(
+                ValueString("ERROR"), "Cannot round a non-finite number", pos
+            )
 
 
 class FuncFormatDate(ValueFunc):
